@@ -109,6 +109,7 @@ func runC10Wiring(c caseC10Wiring, rec *kit.Recorder) error {
 		{Kind: "pause_cc", Protocol: "PROTOCOL_HYPERLANE", Ids: []string{"7"}},
 		{Kind: "pause_action", Action: "ACTION_SWAP"},
 		{Kind: "pause_cc", Protocol: "PROTOCOL_CCTP", Ids: c10Batch},
+		{Kind: "update_params", MaxPassthrough: 500},
 	} {
 		a.Signer = want
 		m, _ := kit.BuildAdmin(a)
